@@ -466,6 +466,62 @@ def evaluate_all(limit_orders=None):
                             "served-by-fallback", n0, r, o, s.seed(),
                             t.seed()))
             res["edit-del|%s|%r" % (n0, r)] = [o, s.seed()]
+    # ---------------- long experiments: ONE updater and ONE set of stream
+    # objects through 0..47 replications (in order, backwards, scrambled);
+    # every seed equals that of a brand-new stream updated by a brand-new
+    # updater straight to that replication
+    names = ["default", "service", "arr"]
+
+    def mk_streams(names_):
+        return {n_: MersenneTwister(ORIG[i_ % len(ORIG)])
+                for i_, n_ in enumerate(names_)}
+    for uname in ("simple", "table-fallback", "table-listed"):
+        for oname, rs in (("ascending", list(range(48))),
+                          ("descending", list(range(47, -1, -1))),
+                          ("scrambled", [(i * 29) % 48 for i in range(48)]),
+                          ("same-again", [5] * 20 + [6] * 20)):
+            table = {"service": [9000 + k for k in range(48)]} \
+                if uname == "table-listed" else {}
+            upd = SimpleStreamUpdater() if uname == "simple" else \
+                StreamSeedUpdater({k: list(v) for k, v in table.items()})
+            st = mk_streams(names)
+            for k, r in enumerate(rs):
+                o = outcome(lambda: upd.update_seeds(st, r))
+                f = mk_streams(names)
+                u2 = SimpleStreamUpdater() if uname == "simple" else \
+                    StreamSeedUpdater({k_: list(v) for k_, v
+                                       in table.items()})
+                u2.update_seeds(f, r)
+                got = {n: (st[n].seed(), st[n].original_seed(),
+                           draws(st[n])) for n in names}
+                want = {n: (f[n].seed(), f[n].original_seed(), draws(f[n]))
+                        for n in names}
+                if o != "ok" or got != want:
+                    bad.append(("long-experiment-%s" % uname, oname, k, r, o,
+                                {n: got[n][:2] for n in names},
+                                {n: want[n][:2] for n in names}))
+                    break
+            res["long|%s|%s" % (uname, oname)] = [
+                {n: st[n].seed() for n in names}]
+    # one updater object, the SAME stream object known under another name
+    # later on (a model rebuilt with renamed streams)
+    for r in (1, 2, 7):
+        upd = SimpleStreamUpdater()
+        s = MersenneTwister(10)
+        upd.update_seeds({"service": s}, r)
+        upd.update_seeds({"arrivals": s}, r)
+        f = MersenneTwister(10)
+        SimpleStreamUpdater().update_seeds({"arrivals": f}, r)
+        if s.seed() != f.seed():
+            bad.append(("seed-depends-on-an-earlier-name-of-the-stream", r,
+                        s.seed(), f.seed()))
+        upd2 = StreamSeedUpdater({})
+        s = MersenneTwister(10)
+        upd2.update_seeds({"service": s}, r)
+        upd2.update_seeds({"arrivals": s}, r)
+        if s.seed() != f.seed():
+            bad.append(("seed-depends-on-an-earlier-name-of-the-stream:"
+                        "table", r, s.seed(), f.seed()))
     return res, bad
 
 
